@@ -296,6 +296,10 @@ def _apply(prob, spec, op):
 
 
 _CACHE = {}
+# finite-difference check_partials results after an iterative solve: two converged states differ
+# within the solver tolerance (Broyden's depends on its own history) and the difference is
+# amplified by 1/step
+_QTOL = {('cp_fd', m): 1e-3 for m in ('broyden', 'nlbgs_aitken', 'newton_ls', 'execnewton')}
 
 
 def _replay(spec, mname, hist):
@@ -326,7 +330,15 @@ def _replay(spec, mname, hist):
         if op in RO and after != before:
             which = [n for n, a, b in zip(('inputs', 'outputs'), before, after)
                      if a != b]
-            vio.append(('state_changed:%s:%s' % (op, '+'.join(which)),
+            # a change of at most 2 units in the last place is classed separately (the arithmetic
+            # way ExplicitComponent._apply_nonlinear puts the outputs back: new + (old - new))
+            tiny = True
+            for a, b in zip(before, after):
+                x, y = np.frombuffer(a), np.frombuffer(b)
+                if x.shape != y.shape or np.any(np.abs(x - y) > 4.5e-16 * np.maximum(1.0, np.abs(x))):
+                    tiny = False
+            vio.append(('%s:%s:%s' % ('state_changed_ulp' if tiny else 'state_changed', op,
+                                      '+'.join(which)),
                         'read-only call %s at step %d changed the root %s vector(s)' % (
                             op, k, '/'.join(which))))
         steps.append((after, None if res is None else _flatten(res)))
@@ -418,7 +430,8 @@ def check_case(case):
                 if want is None or got.shape != want.shape:
                     add('query_result_shape:%s' % op, 'result layout differs from the same query '
                         'after %s' % (list(base_hist[:-1]),))
-                elif not np.allclose(got, want, rtol=1e-7, atol=1e-9, equal_nan=True):
+                elif not np.allclose(got, want, rtol=_QTOL.get((op, mname), 1e-7),
+                                     atol=_QTOL.get((op, mname), 1e-9), equal_nan=True):
                     add('query_depends_on_readonly_calls:%s' % op, 'max diff %.3e vs. the same '
                         'query after %s' % (float(np.nanmax(np.abs(got - want))),
                                            list(base_hist[:-1])))
